@@ -589,6 +589,7 @@ func (s *MemoryBackend) ReadStartingWithUser(
 			}
 
 			matches = append(matches, t)
+			break
 		}
 	}
 	sort.Slice(matches, func(i, j int) bool {
